@@ -16,6 +16,14 @@ structure CR (H : Type) [Hasher H] : Prop where
   inj : ∀ a b c d : H, ph a b = ph c d → a = c ∧ b = d
   nonzero : ∀ a b : H, ph a b ≠ (zero : H)
 
+/-- the parent hash is never the all-zero hash (the code uses the zero hash as "empty").
+Unlike `CR` this is satisfiable by finite hash types (no pigeonhole argument refutes it), so
+theorems stated under `NZ` are not vacuous for a real 32-byte hash. -/
+structure NZ (H : Type) [Hasher H] : Prop where
+  nonzero : ∀ a b : H, ph a b ≠ (zero : H)
+
+theorem CR.toNZ {H} [Hasher H] (cr : CR H) : NZ H := ⟨cr.nonzero⟩
+
 /-- The forest committed to by `(numLeaves, roots)`, through positions in `TreeRows`
 coordinates: `nodeAt p` is the hash of the node currently at position `p`, if any. -/
 structure ForestView (H : Type) [Hasher H] (numLeaves : U64) (roots : List H) where
